@@ -19,22 +19,26 @@ def conds(tier):
              what='parse_individuals: empty location / parents cells in either row, optional columns omitted'),
         dict(module=M, function='mutations_times_and_parents', timeout=170 * f,
              what='parse_mutations: unknown / omitted time, omitted parent, multi-character and empty derived state'),
+        dict(module=M, function='dump_load_nodes', timeout=300 * f, encodes=['tskit.text_formats.dump_text', 'tskit.trees.parse_nodes'],
+             what='dump_text(nodes) -> parse_nodes on a fake tree sequence: sample flag, population in [-1,10], individual in {9,10}, two times, base64 metadata'),
+        dict(module=M, function='dump_load_sites_mutations', timeout=400 * f, encodes=['tskit.text_formats.dump_text', 'tskit.trees.parse_sites', 'tskit.trees.parse_mutations'],
+             what='dump_text(sites, mutations) -> parse_sites / parse_mutations: 2 sites, 3 mutations, node id in [0,11], each time known or unknown independently, parent -1/0, binary metadata'),
     ]
 
 
 BOUNDS = {'quick': '2-row (edges: 1-row) tables in strict tab-separated mode; integer cells symbolic in [-1,11] (edges: parent <= 110), '
                    'rendered with str(); float cells and Base64 metadata cells concrete; column permutations, optional-column '
                    'subsets and the position of an unknown column symbolic', 'thorough': 'same conditions with 4x budgets'}
-OUTSIDE = ['dump_text (row formatting at a precision; works on numpy columns of a real tree sequence)',
+OUTSIDE = ['dump_text of edges, individuals, populations, migrations, provenances; precisions other than 6',
            'load_text: sort + tree_sequence() (C library)', 'symbolic floating-point and Base64 cells (float()/binascii realise)',
-           'parse_sites, parse_populations, parse_migrations', 'non-strict whitespace mode', 'the full dump -> load round trip']
+           'parse_populations, parse_migrations', 'non-strict whitespace mode', 'the round trip through real tables and load_text (sort, tree_sequence)']
 ASSUMPTIONS = ['tables are replaced by a recorder of add_row keyword arguments']
 MANIFEST = dict(engine='crosshair',
-                text='PARTIAL claim (the parser sentence of the property only): CrossHair symbolic execution of the real '
+                text='PARTIAL claim (parsers, and the dump -> parse round trip of node, site and mutation rows on a stand-in tree sequence): CrossHair symbolic execution of the real '
                      'parse_nodes/edges/individuals/mutations on text assembled from symbolic integer cells in symbolic column '
                      'orders with symbolic optional-column subsets and an unknown extra column: the recorded rows equal the '
-                     'source rows and omitted columns take the documented defaults.  The dump_text -> load_text round trip itself '
-                     'is NOT covered.',
+                     'source rows and omitted columns take the documented defaults; rows written by the real dump_text are read back unchanged by '
+                     'the real parsers.  load_text (sort + tree_sequence on real tables) is NOT covered.',
                 note='Recorder instead of real tables; floats and Base64 cells concrete; see outside_claim.',
                 technique='symbolic execution of Python (CrossHair) + SMT (z3), bounded')
 
@@ -44,4 +48,4 @@ def run(pid, tier, seed, only=None):
     cs = conds(tier)
     if only:
         cs = [c for c in cs if only in c['function']]
-    return chdriver.run(pid, tier, seed, cs, BOUNDS[tier], OUTSIDE, ASSUMPTIONS, ['Recorder (table.add_row)'])
+    return chdriver.run(pid, tier, seed, cs, BOUNDS[tier], OUTSIDE, ASSUMPTIONS, ['Recorder (table.add_row)', 'fake tree sequence rows for dump_text', 'pure-Python print'])
